@@ -2,13 +2,10 @@
    common code in harness/c01/encx) print [case] terms holding the input AND what the
    implementation was observed to do; [check_case] compares with the model on the concrete
    Gallina primitives and evaluates the spec oracles of Spec.v on the observation.
-   Variant: the two variants of decrypt_stream differ only when the unwrap callback fails (or
-   returns an error together with 32 bytes).  C01 cases (valid documents, callbacks that either
-   succeed or fail outright with a wrong/short key) are insensitive to it; C02 cases carry the
-   variant of the tree under test, which the harness determines with a probe (does a document
-   MACed under the all-zero file key decrypt when the unwrap fails?), so that the check is
-   right both before and after fixes/C02-zero-key-forgery.patch is committed — the ORACLE does
-   not depend on the variant.  Long byte strings never appear literally: plaintexts are generator
+   Variant: the model is pinned to [Fixed] = the current tree (fix: commit 32f907c, a failed
+   unwrap always ends in ErrDecryptionSignature), so reverting that fix shows up as a
+   model/implementation disagreement as well as an oracle failure.
+   Long byte strings never appear literally: plaintexts are generator
    expressions, long outputs are compared through (length, SHA-256). *)
 From Kit Require Export C01.Model C01.Spec C01.Concrete Lib.CheckLib.
 
@@ -150,8 +147,8 @@ Inductive case :=
        (fk : list N) (p : pgen) (obs : dobs)
 (* Go Decrypt of a TAMPERED document derived from a valid one with plaintext [p]: the
    bytes (None = long document, oracle only), table, key name, script, observation *)
-| CTamper (v : variant) (p : pgen) (d : option (list N)) (tbl : utable) (optkn : list N)
-          (sc : list sitem) (obs : dobs).
+| CTamper (p : pgen) (d : option (list N)) (tbl : utable) (optkn : list N) (sc : list sitem)
+          (obs : dobs).
 
 Definition pair_eqb (a b : option (list N * list N)) : bool :=
   match a, b with
@@ -172,11 +169,11 @@ Definition model_agrees (c : case) : bool :=
   | CDec d tbl optkn sc fk p obs =>
       let bs := doc_bytes d in
       dec_agrees true
-        (decrypt_stream concrete Original SEG HDR (unwrap_of tbl) optkn (mk_script sc bs)) obs
-  | CTamper v p (Some bs) tbl optkn sc obs =>
+        (decrypt_stream concrete Fixed SEG HDR (unwrap_of tbl) optkn (mk_script sc bs)) obs
+  | CTamper p (Some bs) tbl optkn sc obs =>
       dec_agrees false
-        (decrypt_stream concrete v SEG HDR (unwrap_of tbl) optkn (mk_script sc bs)) obs
-  | CTamper _ _ None _ _ _ _ => true
+        (decrypt_stream concrete Fixed SEG HDR (unwrap_of tbl) optkn (mk_script sc bs)) obs
+  | CTamper _ None _ _ _ _ => true
   end.
 
 (* What the documentation promises for Decrypt of a valid document with manifest [m]: the key
@@ -239,7 +236,7 @@ Definition oracle (c : case) : bool :=
                | _, _ => false
                end
          end
-  | CTamper _ p _ _ _ sc obs =>
+  | CTamper p _ _ _ sc obs =>
       let pb := pbytes p in
       match obs with
       | DOCall _ => tamper_oracle pb [] false (sitems_fail sc)
@@ -252,8 +249,11 @@ Definition oracle (c : case) : bool :=
   end.
 
 (* 0 = agree and oracle holds; 1 = model and implementation differ; 2 = the implementation's
-   observed behaviour violates the spec. *)
+   observed behaviour violates the spec and the faithful model reproduces that behaviour (the
+   only kind of failure a known finding may absorb); 3 = it violates the spec and the model
+   does NOT reproduce it (never absorbed). *)
 Definition check_case (c : case) : Z :=
-  if negb (oracle c) then 2 else if negb (model_agrees c) then 1 else 0.
+  if negb (oracle c) then (if model_agrees c then 2 else 3)
+  else if negb (model_agrees c) then 1 else 0.
 
 Definition run_cases (cs : list (Z * case)) : list (Z * Z) := failures check_case cs.
